@@ -18,4 +18,9 @@ class C01(E1Prop):
         return any(t in r.tags for t in self.nontrivial_tags)
 
 
+    def make_history(self, rng):
+        from ..batchdb import gen
+        return gen.history(rng, two_batches=0.7, special=0.15, weights={'cancel-cleanup-cancel': 6.0})
+
+
 PROP = C01()
